@@ -21,7 +21,7 @@ fi
 for id in "$@"; do
   out=$(VERIF_REPO="$RM" VERIF_SEED="${VERIF_SEED:-0}" "$VM/check" "$id" --tier "$TIER" 2>&1); rc=$?
   echo "--- $id rc=$rc"
-  echo "$out" | grep -E "^(VIOLATION|KNOWN-FINDING|INFRA|HARNESS|C[0-9]+ tier)" | cut -c1-400 | head -8
+  echo "$out" | grep -E "^(VIOLATION|KNOWN-FINDING|INFRA|HARNESS|C[0-9]+ tier)" | cut -c1-400 | head -12
   echo "$out" | grep -A1 "^VIOLATION" | grep "^  " | head -3 | cut -c1-500
 done
 git -C "$RM" checkout -q -- . ; git -C "$RM" clean -fdq
